@@ -1016,3 +1016,53 @@ M('C12', 'ft-transfer_batch-no-auth', TOK, "        from.require_auth();\n\n    
 M('C12', 'ft-transfer_batch-credit-more', TOK, "            Self::receive_balance(env, to.clone(), amount);\n\n            TokenUtils::new(env)", "            Self::receive_balance(env, to.clone(), amount + 1);\n\n            TokenUtils::new(env)", 'C12.R3', base='features/token-f2')
 M('C12', 'ft-transfer_batch-credit-without-debit', TOK, "            Self::spend_balance(env, from.clone(), amount);\n            Self::receive_balance(env, to.clone(), amount);\n\n            TokenUtils::new(env)", "            Self::receive_balance(env, to.clone(), amount);\n\n            TokenUtils::new(env)", 'C12.R3', base='features/token-f2')
 M('C07', 'ft-transfer_batch-no-auth-c07', TOK, "        from.require_auth();\n\n        for (to, amount) in transfers.iter() {", "        for (to, amount) in transfers.iter() {", 'C07', base='features/token-f2')
+
+# ---------------- refactor round 8 bases ----------------
+ST = 'contracts/axelar-gateway/src/storage_types.rs'
+M('C02', 'rf-gwmsg14-swapped-announce', GW, "                    .then_some(MessageApprovalValue::Executed)\n            },\n            event::execute_message,",
+  "                    .then_some(MessageApprovalValue::Executed)\n            },\n            event::approve_message,", 'C02.R3', base='gwmsg-14')
+M('C02', 'rf-gwmsg14-approve-announces-executed', GW, "            },\n                        event::approve_message,", "            },\n                        event::execute_message,", 'FLOOR', base='gwmsg-14')
+M('C02', 'rf-gwmsg14-approve-any-status', GW, "(status == MessageApprovalValue::NotApproved)\n                                .then(", "(status != MessageApprovalValue::Executed)\n                                .then(", 'C02.R2', base='gwmsg-14')
+M('C02', 'rf-gwmsg14-validate-any-approved', GW, "(status == MessageApprovalValue::Approved(message.hash(&env)))\n                    .then_some(", "(status != MessageApprovalValue::NotApproved)\n                    .then_some(", 'C02.R3', base='gwmsg-14')
+M('C02', 'rf-gwmsg14-announce-before-set', GW, "                announce(env, message);\n\n                true", "                true", 'C02', base='gwmsg-14')
+M('C02', 'rf-gwmsg15-approval-of-ignores-hash', ST, ".is_some_and(|approved_hash| approved_hash == message_hash)", ".is_some()", 'C02', base='gwmsg-15')
+M('C02', 'rf-gwmsg15-not-approved-includes-approved', ST, "matches!(self, Self::NotApproved)", "!matches!(self, Self::Executed)", 'C02.R2', base='gwmsg-15')
+M('C02', 'rf-gwmsg15-keyed-id-only', GW, "            source_chain: message.source_chain.clone(),\n            message_id: message.message_id.clone(),\n        };\n\n        (key, message)",
+  "            source_chain: message.message_id.clone(),\n            message_id: message.message_id.clone(),\n        };\n\n        (key, message)", 'C02.R2', base='gwmsg-15')
+M('C02', 'rf-gwmsg15-approved-hash-of-executed', ST, "            Self::Approved(hash) => Some(hash),\n            Self::NotApproved | Self::Executed => None,", "            Self::Approved(hash) => Some(hash),\n            Self::NotApproved | Self::Executed => None,", equiv=True, base='gwmsg-15')
+M('C02', 'rf-gwmsg15-early-return-inverted', GW, "        if !approval.is_approval_of(&Self::message_hash(&env, &message)) {\n            return false;\n        }", "        if approval.is_executed() {\n            return false;\n        }", 'C02.R3', base='gwmsg-15')
+M('C02', 'rf-gwmsg15-event-macro-wrong-topic', 'contracts/axelar-gateway/src/event.rs', 'publish!(env, "message_executed", (message), ());', 'publish!(env, "message_approved", (message), ());', 'C02.R3', base='gwmsg-15')
+M('C03', 'rf-gwauth14-order-nonstrict', AUTH, "ensure!(previous_signer < signer, ContractError::InvalidSigners);", "ensure!(previous_signer <= signer, ContractError::InvalidSigners);", 'C03.R1', base='gwauth-14')
+M('C03', 'rf-gwauth14-no-weight-check', AUTH, "            ensure!(weight != 0, ContractError::InvalidWeight);\n", "", 'C03.R1', base='gwauth-14')
+M('C03', 'rf-gwauth14-prev-is-always-zero', AUTH, "iter::once(lowest_key).chain(signers.iter().map(|previous| previous.signer));", "iter::once(lowest_key.clone()).chain(signers.iter().map(move |_| lowest_key.clone()));", 'C03.R1', base='gwauth-14')
+M('C03', 'rf-gwauth14-wrapping-total', AUTH, "            total_weight\n                .checked_add(weight)\n                .ok_or(ContractError::WeightOverflow)", "            Ok(total_weight.wrapping_add(weight))", 'C03.R1', base='gwauth-14')
+M('C01', 'rf-gwauth14-break-below-threshold', AUTH, "            if signed_weight >= proof.threshold {\n                ControlFlow::Break(())", "            if signed_weight > 0 {\n                ControlFlow::Break(())", 'C01', base='gwauth-14')
+M('C01', 'rf-gwauth14-end-of-walk-accepts', AUTH, "        ControlFlow::Continue(_) => Err(ContractError::InvalidSignatures),", "        ControlFlow::Continue(_) => Ok(()),", 'C01', base='gwauth-14')
+M('C01', 'rf-gwauth14-unsigned-counts', AUTH, "                return ControlFlow::Continue(signed_weight);", "                return ControlFlow::Continue(signed_weight + weight);", 'C01', base='gwauth-14')
+M('C01', 'rf-gwauth14-no-verify', AUTH, "            env.crypto()\n                .ed25519_verify(&public_key, msg_hash.to_bytes().as_ref(), &signature);\n", "            let _ = &signature;\n", 'C01', base='gwauth-14')
+M('C03', 'rf-gwauth13-min-key-nonzero-equiv', AUTH, "const MIN_SIGNER_KEY: [u8; 32] = [0; 32];", "const MIN_SIGNER_KEY: [u8; 32] = [0u8; 32];", equiv=True, base='gwauth-13')
+M('C03', 'rf-gwauth13-order-nonstrict', AUTH, "            previous_signer < signer.signer,", "            previous_signer <= signer.signer,", 'C03.R1', base='gwauth-13')
+M('C01', 'rf-gwauth15-buffer-parts-swapped', AUTH, "    msg[..HASH_LEN].copy_from_slice(&domain_separator.to_array());\n    msg[HASH_LEN..2 * HASH_LEN].copy_from_slice(&signers_hash.to_array());",
+  "    msg[..HASH_LEN].copy_from_slice(&signers_hash.to_array());\n    msg[HASH_LEN..2 * HASH_LEN].copy_from_slice(&domain_separator.to_array());", 'C01.R3', base='gwauth-15')
+M('C01', 'rf-gwauth15-buffer-data-hash-overwrites-set-hash', AUTH, "    msg[2 * HASH_LEN..].copy_from_slice(&data_hash.to_array());", "    msg[HASH_LEN..2 * HASH_LEN].copy_from_slice(&data_hash.to_array());", 'C01.R3', base='gwauth-15')
+M('C01', 'rf-gwauth15-buffer-no-domain-separator', AUTH, "    msg[..HASH_LEN].copy_from_slice(&domain_separator.to_array());\n", "    let _ = &domain_separator;\n", 'C01.R3', base='gwauth-15')
+M('C03', 'rf-gwauth15-duplicate-check-inverted', AUTH, "        registry.epoch_of(&new_signers_hash).is_none(),", "        registry.epoch_of(&new_signers_hash).is_some(),", 'C03', base='gwauth-15')
+M('C09', 'rf-gwauth15-delay-check-inverted', AUTH, "    if enforce_rotation_delay && !clock.is_delay_elapsed() {", "    if enforce_rotation_delay && clock.is_delay_elapsed() {", 'C09', base='gwauth-15')
+M('C09', 'rf-gwauth15-delay-strict', AUTH, "            self.current_timestamp - self.last_rotation_timestamp >= self.minimum_rotation_delay", "            self.current_timestamp - self.last_rotation_timestamp > self.minimum_rotation_delay", 'C09', base='gwauth-15')
+M('C02', 'rf-gwauth15-replay-arm-swapped', GW, "                MessageApprovalValue::NotApproved => {\n                    env.storage().persistent().set(", "                MessageApprovalValue::NotApproved | MessageApprovalValue::Executed => {\n                    env.storage().persistent().set(", 'C02.R2', base='gwauth-15')
+MUTANTS[-1]['also'] = [("                MessageApprovalValue::Approved(_) | MessageApprovalValue::Executed => {}", "                MessageApprovalValue::Approved(_) => {}")]
+ALW = 'contracts/interchain-token/src/allowance.rs'
+M('C12', 'rf-token13-spend-no-cover-check', ALW, "        if available < amount {\n            panic_with_error!(self.env, ContractError::InsufficientAllowance);\n        }\n", "", None, base='token-13')
+M('C12', 'rf-token13-expired-keeps-amount', ALW, "            }) if expiration_ledger < self.env.ledger().sequence() => AllowanceValue {\n                amount: 0,", "            }) if expiration_ledger < self.env.ledger().sequence() => AllowanceValue {\n                amount: i128::MAX,", 'C12', base='token-13')
+M('C12', 'rf-token13-spend-other-slot', TOK, "        AllowanceSlot::new(env, owner, spender).spend(amount);", "        AllowanceSlot::new(env, spender, owner).spend(amount);", 'C12', base='token-13')
+M('C07', 'rf-token13-debit-no-auth', TOK, "    fn debit_on_behalf(env: &Env, spender: &Address, owner: &Address, amount: i128) {\n        spender.require_auth();", "    fn debit_on_behalf(env: &Env, spender: &Address, owner: &Address, amount: i128) {", 'C07', base='token-13')
+M('C12', 'rf-token14-move-credits-sender', TOK, "        Self::spend_balance(env, from, amount);\n        Self::receive_balance(env, to, amount);\n    }", "        Self::spend_balance(env, from, amount);\n        Self::receive_balance(env, from, amount);\n    }", 'C12', base='token-14')
+M('C12', 'rf-token14-move-no-debit', TOK, "        Self::spend_balance(env, from, amount);\n        Self::receive_balance(env, to, amount);\n    }", "        Self::receive_balance(env, to, amount);\n        let _ = from;\n    }", 'C12', base='token-14')
+M('C12', 'rf-token14-spend-writes-balance', TOK, "        let remaining = balance - amount;\n", "        let remaining = balance;\n", 'C12', base='token-14')
+M('C12', 'rf-token14-spend-no-cover-check', TOK, "        let (key, balance) = Self::load_balance(env, account);\n\n        assert_with_error!(env, balance >= amount, ContractError::InsufficientBalance);\n", "        let (key, balance) = Self::load_balance(env, account);\n", 'C12', base='token-14')
+MEM = 'contracts/axelar-operators/src/membership.rs'
+M('C17', 'rf-gasops14-membership-inverted', MEM, "        if is_stored {\n            Self::Member\n        } else {\n            Self::Outsider\n        }", "        if is_stored {\n            Self::Outsider\n        } else {\n            Self::Member\n        }", 'C17', base='gasops-14')
+M('C17', 'rf-gasops14-require-member-passes-outsider', MEM, "            Self::Member => Ok(()),\n            Self::Outsider => Err(ContractError::NotAnOperator),", "            Self::Member | Self::Outsider => Ok(()),", 'C17', base='gasops-14')
+M('C17', 'rf-gasops14-expel-admits', MEM, "        self.storage().instance().remove(&entry(account));", "        self.storage().instance().set(&entry(account), &true);", 'C17', base='gasops-14')
+M('C15', 'rf-gasops14-ensure-not-at-inverted', 'contracts/upgrader/src/contract.rs', "        if self.version() == *version {\n            return Err(ContractError::SameVersion);", "        if self.version() != *version {\n            return Err(ContractError::SameVersion);", 'C15', base='gasops-14')
+M('C15', 'rf-gasops14-no-post-check', 'contracts/upgrader/src/contract.rs', "        target.ensure_at(&new_version)", "        let _ = &new_version;\n        Ok(())", 'C15', base='gasops-14')
